@@ -317,6 +317,16 @@ func genDesc(r *core.Rand) *elfref.Desc {
 		if odd(8) {
 			d.Progs = append(d.Progs, elfref.Prog{Type: uint32(r.Range(2, 7)), Off: first.off, Vaddr: where(), Filesz: 8, Memsz: 8})
 		}
+		if odd(6) { // a loadable segment at virtual address 0 (with some other physical address)
+			d.Progs = append(d.Progs, elfref.Prog{Type: elfref.PTLoad, Flags: 4, Off: first.off, Vaddr: 0, Filesz: uint64(r.Range(1, 8)), Memsz: uint64(r.Range(8, 16)), PaddrDelta: uint64(r.Intn(2)) * 0x80000000})
+		}
+		if odd(3) { // physical addresses that differ from the virtual ones
+			for i := range d.Progs {
+				if r.Bool() {
+					d.Progs[i].PaddrDelta = []uint64{0x80000000, 0x1000, ^uint64(0) - 0xfff, 4}[r.Intn(4)]
+				}
+			}
+		}
 		if len(d.Progs) > 1 && odd(3) { // header order is not address order
 			i, j := r.Intn(len(d.Progs)), r.Intn(len(d.Progs))
 			d.Progs[i], d.Progs[j] = d.Progs[j], d.Progs[i]
